@@ -67,10 +67,15 @@ static int in_child(void (*f)(void *), void *arg)
 
 /* ---------------- A. layout for one size ---------------- */
 typedef struct { size_t n; int idx; } carg;
+static void returning_handler(int s) { (void) s; }
+static int canary_sigmode;      /* 0 default disposition, 1 SIGSEGV ignored, 2 SIGSEGV handled by a handler that returns, 3 SIGSEGV blocked */
 static void child_canary(void *a)
 {
     carg *c = a; unsigned char *p = sodium_malloc(c->n);
     signal(SIGSEGV, SIG_DFL); signal(SIGABRT, SIG_DFL);
+    if (canary_sigmode == 1) signal(SIGSEGV, SIG_IGN);
+    if (canary_sigmode == 2) signal(SIGSEGV, returning_handler);
+    if (canary_sigmode == 3) { sigset_t ss; sigemptyset(&ss); sigaddset(&ss, SIGSEGV); sigprocmask(SIG_BLOCK, &ss, NULL); }
     p[-1 - c->idx] ^= 0x01;          /* alter one canary byte (underflow by idx+1 bytes) */
     sodium_free(p);
     _exit(0);                         /* free returned: the underflow went unnoticed */
@@ -129,8 +134,9 @@ static void layout_size(long N)
     if (boundary) {
         carg c; int st; c.n = n;
         for (k = 0; k < 16; k++) { 
+            canary_sigmode = (n % 64 == 0 || n % PG >= PG - 17) ? (int) ((k + n) & 3) : 0;    /* also with SIGSEGV ignored / handled / blocked: freeing must still terminate the process */
             c.idx = k; st = in_child(child_canary, &c); n_eval++; n_nontriv++;
-            if (!WIFSIGNALED(st)) { char k2[128]; snprintf(k2, sizeof k2, "sodium_free/underflow/size=%zu/canary-byte=%d", n, k); vf_fail(k2, "altering canary byte p-%d was not detected: sodium_free returned (status %x)", k + 1, st); } }
+            if (!WIFSIGNALED(st)) { char k2[128]; snprintf(k2, sizeof k2, "sodium_free/underflow/size=%zu/canary-byte=%d", n, k); vf_fail(k2, "altering canary byte p-%d was not detected (SIGSEGV disposition mode %d): sodium_free returned (status %x)", k + 1, canary_sigmode, st); } }
         for (k = 0; k < 2; k++) { c.idx = k; st = in_child(child_overflow, &c); n_eval++; n_nontriv++;
             if (!(WIFEXITED(st) && WEXITSTATUS(st) == 42)) { char k2[128]; snprintf(k2, sizeof k2, "sodium_malloc/overflow-%s/size=%zu", k ? "read" : "write", n); vf_fail(k2, "access to p+%zu did not fault at that address (status %x)", n, st); } }
     }
